@@ -46,17 +46,35 @@ def _struct_of(expr, tnames, jnames):
     return None
 
 
-def mutations(fn):
+ACCESSORS = ("get_tasks", "get_jobs")
+
+
+def holders(fn, pt=(), pj=()):
+    """(names that may hold the task deque, names that may hold the job dict) inside fn: locals bound from an accessor
+    or from a global spelling of the structure, plain copies of such a local (`q = tasks`, also the `param = arg`
+    bindings of the helper-transparent view), and the parameters ``pt`` / ``pj`` that receive the structure at a
+    call site (param_roles)."""
     defs = df.all_defs(fn)
-    tnames, jnames = set(), set()
-    for n_, ds in defs.items():
-        for d in ds:
-            if d.kind == "assign" and d.value is not None:
-                s = _struct_of(d.value, set(), set())
-                if s == "T":
-                    tnames.add(n_)
-                elif s == "J":
-                    jnames.add(n_)
+    tnames, jnames = set(pt), set(pj)
+    for _ in range(8):
+        grew = False
+        for n_, ds in defs.items():
+            for d in ds:
+                if d.kind in ("assign", "walrus") and d.value is not None:
+                    s = _struct_of(d.value, tnames, jnames)
+                    if s == "T" and n_ not in tnames:
+                        tnames.add(n_)
+                        grew = True
+                    elif s == "J" and n_ not in jnames:
+                        jnames.add(n_)
+                        grew = True
+        if not grew:
+            break
+    return tnames, jnames
+
+
+def mutations(fn, pt=(), pj=()):
+    tnames, jnames = holders(fn, pt, pj)
     out = []
     for n in walk_local(fn):
         if isinstance(n, ast.Call) and isinstance(n.func, ast.Attribute):
@@ -89,6 +107,76 @@ def mutations(fn):
     return out
 
 
+def _params(fn):
+    a = fn.args
+    return [x.arg for x in a.posonlyargs + a.args + a.kwonlyargs]
+
+
+def _bound_args(fn, call):
+    """parameter name -> argument expression of one call site (None when the site cannot be mapped: *args / **kw)"""
+    a = fn.args
+    pos = [x.arg for x in a.posonlyargs + a.args]
+    if any(isinstance(x, ast.Starred) for x in call.args) or any(k.arg is None for k in call.keywords) or len(call.args) > len(pos):
+        return None
+    out = dict(zip(pos, call.args))
+    for k in call.keywords:
+        out[k.arg] = k.value
+    return out
+
+
+def param_roles(ctx, mod):
+    """qualname -> (parameters that receive the task deque, parameters that receive the job dict) for the module-level
+    functions of jobs.py.  A helper that is handed the structure (`_drop(tasks, dead)`) mutates the job table exactly
+    as a function that fetched it itself: the role of the parameter is what the call sites pass (resolved in the
+    caller's own view, to a fixpoint so that a structure passed down two levels is still known), not how it is spelt.
+    One site passing the structure is enough for the parameter to count as holding it (may-hold, as for locals)."""
+    funcs = {q: fn for q, fn in mod.functions() if "." not in q and q not in ACCESSORS + ("use_main_jobs",)}
+    # cheap pre-filter: only parameters through which the function would mutate *if* they held a structure
+    cand = {}
+    for q, fn in funcs.items():
+        ps = set(_params(fn))
+        if not ps:
+            continue
+        base = len(mutations(fn))
+        hot = {p_ for p_ in ps if len(mutations(fn, pt={p_})) > base or len(mutations(fn, pj={p_})) > base}
+        if hot:
+            cand[q] = hot
+    roles = {q: (set(), set()) for q in funcs}
+    if not cand:
+        return roles
+    sites = {q: [] for q in cand}  # (calling function or None, call)
+    for q in cand:
+        for m in ctx.repo.modules("xonsh", "xontrib", exclude=("xonsh/pytest/",), containing=q):
+            for c in ast.walk(m.tree):
+                if isinstance(c, ast.Call) and (call_name(c) or "").split(".")[-1] == q:
+                    sites[q].append((enclosing_func(c), c))
+    for _ in range(4):
+        grew = False
+        for q, hot in cand.items():
+            for caller, c in sites[q]:
+                bound = _bound_args(funcs[q], c)
+                if bound is None:
+                    raise AnalysisError(f"{JB}:{q}: call at {loc(c)} passes its arguments by */**: cannot tell which parameter receives a job structure")
+                cq = qual_of(caller) if caller is not None and getattr(caller, "_xv_mod", None) is mod else None
+                cpt, cpj = roles.get(cq, ((), ()))
+                tn, jn = holders(caller, cpt, cpj) if caller is not None else (set(), set())
+                for p_ in hot:
+                    v = bound.get(p_)
+                    s_ = _struct_of(v, tn, jn) if v is not None else None
+                    if s_ == "T" and p_ not in roles[q][0]:
+                        roles[q][0].add(p_)
+                        grew = True
+                    elif s_ == "J" and p_ not in roles[q][1]:
+                        roles[q][1].add(p_)
+                        grew = True
+        if not grew:
+            break
+    for q, (pt, pj) in roles.items():
+        if pt & pj:
+            raise AnalysisError(f"{JB}:{q}: parameter(s) {sorted(pt & pj)} receive the task deque at one call site and the job dict at another")
+    return roles
+
+
 def _is_error_return(n):
     """``return <stdout>, <non-empty stderr message>`` — the alias convention for an error."""
     if not isinstance(n, ast.Return) or not isinstance(n.value, ast.Tuple) or len(n.value.elts) != 2:
@@ -118,20 +206,25 @@ def check(ctx):
             for mu in mutations(fn):
                 ctx.ob("R1", f"{m.rel}:{q}", f"`{short(stmt_of(mu.node), 60)}`: the job table is mutated only inside procs/jobs.py", False, key=f"{m.rel}:{q}|foreign-mutation|{mu!r}", where=loc(mu.node))
     # ---- paired updates
+    proles = param_roles(ctx, mod)
     n_funcs = 0
     for q, fn in mod.functions():
         if q in ("use_main_jobs", "get_tasks", "get_jobs"):
             continue
-        ms = mutations(fn)
+        # a helper that is handed the structure (`_drop(tasks, dead)`) is a mutator in its own right: its parameter holds
+        # what the call sites pass
+        pt, pj = proles.get(q, ((), ()))
+        ms = mutations(fn, pt, pj)
         if not ms:
             # the mutation may sit in a private helper that takes the structure as a parameter (`_move_to_front(tasks, x)`):
-            # judge the caller on its helper-transparent view
-            ffn = flat(ctx, fn, 1)
-            if ffn is not fn and mutations(ffn):
+            # judge the caller on its helper-transparent view as well (the accessors stay calls: they *are* the structures)
+            ffn = flat(ctx, fn, 1, skip=ACCESSORS)
+            if ffn is not fn and mutations(ffn, pt, pj):
                 fn = ffn
-                ms = mutations(fn)
+                ms = mutations(fn, pt, pj)
         if not ms:
             continue
+        tnames_, _jn = holders(fn, pt, pj)
         n_funcs += 1
         st = f"{JB}:{q}"
         cfg = CFG(fn)
@@ -205,7 +298,7 @@ def check(ctx):
             removed_set = None
             if gen is not None and len(gen.generators) == 1:
                 g = gen.generators[0]
-                it_ok = _struct_of(g.iter, {k for k, ds in defs.items() if any(d.kind == "assign" and d.value is not None and _struct_of(d.value, set(), set()) == "T" for d in ds)}, set()) == "T"
+                it_ok = _struct_of(g.iter, tnames_, set()) == "T"
                 elt_ok = unparse(gen.elt) == unparse(g.target)
                 cond_ok = len(g.ifs) == 1 and isinstance(g.ifs[0], ast.Compare) and isinstance(g.ifs[0].ops[0], ast.NotIn) and unparse(g.ifs[0].left) == unparse(g.target)
                 if it_ok and elt_ok and cond_ok:
@@ -414,8 +507,17 @@ def check(ctx):
         return any(t.endswith(".poll() is None") and pol for t, pol in lits)
 
     n_keep = 0
-    loops_ = [l for l in walk_local(cdj) if isinstance(l, ast.For) and any(isinstance(c.func, ast.Attribute) and c.func.attr == "add" for c in calls_in(l, local=False)) and any(last_attr(c) == "poll" for c in ast.walk(l) if isinstance(c, ast.Call))]
-    preds = [c for n_ in walk_local(cdj) if isinstance(n_, (ast.SetComp, ast.ListComp, ast.GeneratorExp)) for g in n_.generators for i_ in g.ifs for c in ast.walk(i_) if isinstance(c, ast.Call) and isinstance(c.func, ast.Name) and mod.has(c.func.id)]
+
+    def scan_of(f_):
+        loops_ = [l for l in walk_local(f_) if isinstance(l, ast.For) and any(isinstance(c.func, ast.Attribute) and c.func.attr == "add" for c in calls_in(l, local=False)) and any(last_attr(c) == "poll" for c in ast.walk(l) if isinstance(c, ast.Call))]
+        preds = [c for n_ in walk_local(f_) if isinstance(n_, (ast.SetComp, ast.ListComp, ast.GeneratorExp)) for g in n_.generators for i_ in g.ifs for c in ast.walk(i_) if isinstance(c, ast.Call) and isinstance(c.func, ast.Name) and mod.has(c.func.id)]
+        return loops_, preds
+
+    loops_, preds = scan_of(cdj)
+    if not loops_ and not preds:
+        # the purge split in phases: the scan sits in a helper whose result (the dead set) the purge then drops -
+        # look at the helper-transparent view, where the scan is in place again
+        loops_, preds = scan_of(flat(ctx, cdj, 2, skip=ACCESSORS + ("get_task",)))
     if loops_:
         for pth in _dt.simplified(_dt.paths(loops_[0].body, stores=True, loops="skip")):
             removed = any(isinstance(e, ast.Call) and isinstance(e.func, ast.Attribute) and e.func.attr == "add" for e in pth.effects)
